@@ -766,6 +766,29 @@ func init() {
 			"dates in replies and in information forks are not compared (the model has no clock)",
 			"files larger than 4 GiB are not generated",
 		}
+		x.Add(&Family{Name: "regressions", Quick: 1, Thor: 1, Run: func(c *Case) {
+			// d869cd0: a complete file called a.incomplete.txt was listed as a.txt
+			ig := c11Ignores[0]
+			ts, err := newTS(TSOpt{Direct: true, PreserveForks: true, IgnoreFiles: ig.pats,
+				Accounts: []AcctSpec{{Login: "admin", Name: "admin", Password: "", Access: allAccess()}}})
+			if err != nil {
+				return
+			}
+			defer ts.Close()
+			h := &c11Run{c: c, ts: ts, ig: ig}
+			for _, p := range ig.pats {
+				h.res = append(h.res, regexp.MustCompile(p))
+			}
+			h.cc, _ = ts.DirectClient("admin", []byte("admin"), "127.0.0.1:1")
+			os.WriteFile(filepath.Join(ts.Root, "a.incomplete.txt"), []byte("complete"), 0644)
+			os.WriteFile(filepath.Join(ts.Root, "x.incomplete.incomplete"), []byte("partial of x.incomplete"), 0644)
+			os.WriteFile(filepath.Join(ts.Root, "b.txt.incomplete"), []byte("partial"), 0644)
+			os.MkdirAll(filepath.Join(ts.Root, "d.incomplete.d"), 0755)
+			h.listAndJudge(nil)
+			h.step(fileReq{Kind: "info", Name: []byte("a.incomplete.txt")})
+			h.step(fileReq{Kind: "setinfo", Name: []byte("a.incomplete.txt"), NewName: []byte("c.incomplete.txt"), HasNewName: true})
+			h.listAndJudge(nil)
+		}})
 		x.Add(&Family{Name: "histories", Quick: 800, Thor: 16000, Run: c11History})
 		x.Add(&Family{Name: "macroman", Quick: 400, Thor: 20000, Run: func(c *Case) {
 			r := c.R
